@@ -673,7 +673,9 @@ P3 = ["", "B", "BB"]
 PROGS_QUICK = {"single": P5, "tunnel": P4, "tunnel_open": P3, "mux": P3, "nextlayer": P3, "tunnel_nextlayer": P3}
 PROGS_THOROUGH = {"single": P5, "tunnel": P4, "tunnel_open": P4, "mux": P3, "nextlayer": P3 + ["S"], "tunnel_nextlayer": P4}
 N_QUICK = {"single": 3, "tunnel": 2, "tunnel_open": 2, "mux": 2, "nextlayer": 3, "tunnel_nextlayer": 2}
-N_THOROUGH = {"single": 4, "tunnel": 3, "tunnel_open": 3, "mux": 3, "nextlayer": 4, "tunnel_nextlayer": 3}
+# nextlayer: thorough keeps 3 events (enough for a decision at the 1st/2nd/3rd ask) but uses the richer alphabet
+# (foreign completions and both closes before the decision, state switches in the chosen child)
+N_THOROUGH = {"single": 4, "tunnel": 3, "tunnel_open": 3, "mux": 3, "nextlayer": 3, "tunnel_nextlayer": 3}
 PREFIX_LEN = 3
 
 
